@@ -29,6 +29,20 @@ class FaultBase(BaseException):
     """Injected non-Exception failure (separate fault class)."""
 
 
+def _variants(base):
+    """The same failure as a subclass of built-in exception types a library might treat specially
+    (swallowed by getattr/hasattr, used for control flow, caught to retry). Same __name__ on purpose:
+    the oracle identifies the failure by that name."""
+    out = [base]
+    for mix in (RuntimeError, AttributeError, KeyError, NotImplementedError, TypeError, LookupError, ValueError):
+        out.append(type(base.__name__, (base, mix), {"__module__": base.__module__}))
+    return out
+
+
+FAULT_VARIANTS = _variants(FaultA)
+VALIDATOR_VARIANTS = _variants(ValidatorError)
+
+
 class Sent:
     """Unique sentinel return value."""
 
@@ -145,6 +159,11 @@ class Recorder:
             info["depth"] = frame_depth()
         return info
 
+    def _fault_class(self, inv):
+        if self.fault_exc is FaultA:
+            return FAULT_VARIANTS[inv % len(FAULT_VARIANTS)]
+        return self.fault_exc
+
     def _fault_due(self):
         self.invocation += 1
         fa = self.fault_at
@@ -165,7 +184,7 @@ class Recorder:
         try:
             if due and self.fault_when == "before_sends":
                 self.fault_fired = (cb_id, inv)
-                raise self.fault_exc(f"fault@{inv}:{cb_id}")
+                raise self._fault_class(inv)(f"fault@{inv}:{cb_id}")
             if self.gate is not None:
                 for _ in range(script.get("yields", 0)):
                     self.gate.yield_point(cb_id)
@@ -175,7 +194,7 @@ class Recorder:
                 self.nested_send(machine, snd, cb_id)
             if due:
                 self.fault_fired = (cb_id, inv)
-                raise self.fault_exc(f"fault@{inv}:{cb_id}")
+                raise self._fault_class(inv)(f"fault@{inv}:{cb_id}")
             value = ret_value(script.get("ret", "none"), cb_id)
         except BaseException as err:
             self.emit("cb_end", cb=cb_id, tok=info["tok"], exc=type(err).__name__, excid=id(err))
@@ -210,7 +229,7 @@ class Recorder:
         try:
             if due and self.fault_when == "before_sends":
                 self.fault_fired = (cb_id, inv)
-                raise self.fault_exc(f"fault@{inv}:{cb_id}")
+                raise self._fault_class(inv)(f"fault@{inv}:{cb_id}")
             for _ in range(script.get("yields", 0)):
                 if self.gate is not None:
                     await self.gate.point(cb_id)
@@ -233,7 +252,7 @@ class Recorder:
                 self.emit("send_return", tok=tok, val=res_repr(res))
             if due:
                 self.fault_fired = (cb_id, inv)
-                raise self.fault_exc(f"fault@{inv}:{cb_id}")
+                raise self._fault_class(inv)(f"fault@{inv}:{cb_id}")
             value = ret_value(script.get("ret", "none"), cb_id)
         except BaseException as err:
             self.emit("cb_end", cb=cb_id, tok=info["tok"], exc=type(err).__name__, excid=id(err))
@@ -273,7 +292,7 @@ class Recorder:
             state=getattr(kwargs.get("state"), "id", None),
         )
         if v == "raise":
-            raise ValidatorError(gid)
+            raise VALIDATOR_VARIANTS[len(self.log) % len(VALIDATOR_VARIANTS)](gid)
         return v
 
     async def aguard(self, gid, name, kwargs=None):
@@ -302,7 +321,7 @@ class Recorder:
             t_dst=getattr(getattr(tr, "target", None), "id", None),
         )
         if v == "raise":
-            err = ValidatorError(gid)
+            err = VALIDATOR_VARIANTS[len(self.log) % len(VALIDATOR_VARIANTS)](gid)
             self.emit("validator_raise", g=gid, excid=id(err))
             raise err
         return None
